@@ -138,6 +138,20 @@ class Failure(TypedDict):
     extra_metadata: NotRequired[dict[str, Any]]
 
 
+def _split_source_lines(contents: str) -> list[str]:
+    """Split source code into lines the way Python itself does.
+
+    str.splitlines() also splits on form feeds and a few other separators that are
+    not line boundaries in Python source; with it, our line numbers would not match
+    those of the AST and fixes would be applied to the wrong lines.
+
+    """
+    lines = re.split(r"\r\n|\r|\n", contents)
+    if lines and lines[-1] == "":
+        lines.pop()
+    return lines
+
+
 class ErrorContext(Protocol):
     all_failures: list[Failure]
 
@@ -222,7 +236,7 @@ class BaseNodeVisitor(ast.NodeVisitor):
         changes = collections.defaultdict(list)
         with qcore.override(self.__class__, "_changes_for_fixer", changes):
             result = self.check()
-        lines = [line + "\n" for line in self.contents.splitlines()]
+        lines = [line + "\n" for line in _split_source_lines(self.contents)]
         if self.filename in changes:
             lines = self._apply_changes_to_lines(changes[self.filename], lines)
         return result, "".join(lines)
@@ -234,7 +248,7 @@ class BaseNodeVisitor(ast.NodeVisitor):
 
     @qcore.caching.cached_per_instance()
     def _lines(self) -> list[str]:
-        return [line + "\n" for line in self.contents.splitlines()]
+        return [line + "\n" for line in _split_source_lines(self.contents)]
 
     @qcore.caching.cached_per_instance()
     def has_file_level_ignore(
